@@ -15,22 +15,33 @@ FIXTURES = [{"name": "fixture:" + m, "args": ["fixture-load", _os.path.join(_FX,
             for m in ["euclidean", "manhattan", "cosine", "dot", "bqeuclidean", "bqmanhattan", "bqcosine"]]
 
 SCENARIOS = {
+    "C01": {
+        "modules": ["C01", "C01Checker", "C01Examples", "Unconditional"],
+        "theorems": ["C01_forest", "C01_invariant", "C01_checker_accepts", "C01_build", "C01_build_any", "C01_history",
+                     "C01_checker_sound", "C01_inv_add", "C01_inv_append", "C01_inv_del", "C01_inv_clear"],
+        "quick": [hist("c01", 60, extra=T1), hist("c01", 15), hist("c14", 8, extra=T1)],
+        "thorough": [hist("c01", 2500, "thorough", extra=T1), hist("c01", 600, "thorough"), hist("c14", 60, "thorough", extra=T1)],
+        "counts": ["C01"],
+    },
     "C04": {
-        "theorems": ["C04_selfLookup", "C04_selfLookup_symm", "C04_selfLookup_by_item", "C04_routed_meaning", "C04_readerFirst_spec",
+        "modules": ["C04", "C04Build", "Unconditional"],
+        "theorems": ["C04_routed_all_histories", "C04_routed", "C04_checker", "C04_selfLookup", "C04_selfLookup_symm", "C04_selfLookup_by_item", "C04_routed_meaning", "C04_readerFirst_spec",
                      "C04_side_eq_readerFirst"],
         "quick": [hist("c04", 50, extra=T1)],
         "thorough": [hist("c04", 1200, "thorough", extra=T1), hist("c04", 300, "thorough")],
         "counts": ["C04"],
     },
     "C05": {
-        "theorems": ["C05_add", "C05_append", "C05_del", "C05_clear", "C05_contains", "C05_vector", "C05_readback_f32",
+        "modules": ["C05", "C05Build"],
+        "theorems": ["C05_build_preserves", "C05_add", "C05_append", "C05_del", "C05_clear", "C05_contains", "C05_vector", "C05_readback_f32",
                      "C05_iter", "C05_isEmpty", "C05_refines", "C05_bq_readback_given_roundtrip"],
         "quick": [hist("c05", 60, extra=T1)],
         "thorough": [hist("c05", 1500, "thorough", extra=T1), hist("c05", 200, "thorough")],
         "counts": ["C05"],
     },
     "C06": {
-        "theorems": ["C06_open_char", "C06_needBuild_char", "C06_marks", "C06_noop", "C06_clear", "C06_frame",
+        "modules": ["C06", "C06Build"],
+        "theorems": ["C06_build_clears_marks", "C06_open_char", "C06_needBuild_char", "C06_marks", "C06_noop", "C06_clear", "C06_frame",
                      "C06_names_distinct", "C06_wrong_metric"],
         "quick": [hist("c06", 60, extra=T1)],
         "thorough": [hist("c06", 1500, "thorough", extra=T1), hist("c06", 200, "thorough")],
@@ -39,7 +50,7 @@ SCENARIOS = {
     "C02": {
         "theorems": ["C02_exact", "C02_exact_usizeMax", "C02_exact_saturated", "C02_spec", "C02_unique", "C02_exact_bruteforce",
                      "C02_by_vector", "C02_by_item"],
-        "quick": [hist("c02", 50, extra=T1), hist("c02", 10)],
+        "quick": [hist("c02", 50, extra=T1), hist("c02", 10), hist("c14", 8, extra=T1)],
         "thorough": [hist("c02", 1200, "thorough", extra=T1), hist("c02", 300, "thorough")],
         "counts": ["C02", "C01"],
     },
@@ -72,7 +83,8 @@ SCENARIOS = {
         "assumptions": ["durability of a returned commit is LMDB's; a process kill (SIGKILL) stands for a crash, power loss is out of reach"],
     },
     "C10": {
-        "theorems": ["C10_transparent_ok", "C10_transparent_err", "C10_cancel_iff", "C10_cancel_late", "C10_abort", "C10_retry",
+        "modules": ["C10", "C10Reach", "Unconditional"],
+        "theorems": ["C10_transparent_ok_all", "C10_transparent_err_all", "C10_roots_present", "C10_transparent_ok", "C10_transparent_err", "C10_cancel_iff", "C10_cancel_late", "C10_abort", "C10_retry",
                      "C10_cancel_abort_retry"],
         "quick": [{"name": "faults", "args": ["faults", "--seed", "{seed}"]}, hist("c10", 30, extra=T1)],
         "thorough": [{"name": "faults", "args": ["faults", "--seed", "{seed}", "--tier", "thorough"], "timeout": 3000},
@@ -94,6 +106,18 @@ SCENARIOS = {
         "assumptions": ["the rounding-error theorems are relative to the standard model of floating-point arithmetic (no overflow/underflow)",
                         "the NEON paths are not modelled (no aarch64 host)"],
     },
+    "C12": {
+        "theorems": ["C12_roundtrip", "C12_padding", "C12_sign_only", "C12_hamming", "C12_hamming_symm", "C12_hamming_zero_iff",
+                     "C12_euclid", "C12_manhattan", "C12_dot", "C12_cosine", "C12_zero", "C12_zero_cosine", "C12_depends_only_on_h",
+                     "C12_symm", "C12_monotone", "C12_norm_product_exact", "C12_cosine_nonneg", "C12_old_formula_defect"],
+        "quick": [{"name": "bq", "args": ["bq", "--seed", "{seed}"]}, {"name": "kernels", "args": ["kernels", "--seed", "{seed}", "--max-len", "130"]},
+                  hist("c12", 30, extra=T1)],
+        "thorough": [{"name": "bq", "args": ["bq", "--seed", "{seed}", "--tier", "thorough"], "timeout": 3000},
+                     {"name": "kernels", "args": ["kernels", "--seed", "{seed}", "--tier", "thorough"], "timeout": 3000},
+                     hist("c12", 600, "thorough", extra=T1)],
+        "counts": ["C12", "C05"],
+        "nontrivial": "any",
+    },
     "C13": {
         "theorems": ["C13_unique", "C13_unique_log", "C13_full", "C13_full_step", "C13_counter", "C13_sequential", "C13_fresh_supply",
                      "C13_fresh_gen"],
@@ -104,7 +128,8 @@ SCENARIOS = {
         "assumptions": ["each atomic cell is sequentially consistent in the model (Relaxed orderings beyond per-operation atomicity are not modelled)"],
     },
     "C15": {
-        "theorems": ["C15_requested", "C15_auto", "C15_auto_cases", "C15_cap"],
+        "modules": ["C15", "C15Build", "Unconditional"],
+        "theorems": ["C15_capacity_all_histories", "C15_root_count", "C15_single", "C15_capacity", "C15_requested", "C15_auto", "C15_auto_cases", "C15_cap"],
         "quick": [hist("c15", 60, extra=T1)],
         "thorough": [hist("c15", 1500, "thorough", extra=T1), hist("c15", 300, "thorough")],
         "counts": ["C15"],
